@@ -24,6 +24,9 @@ pub struct Tr {
     held: Option<Vec<Vec<u8>>>,
     pub bulk_run: usize,
     pub bulk_kept: usize,
+    /// set by the drivers when a single call already looks wrong (count beyond what was granted,
+    /// byte outside the region touched, panic): a held case is then always written out
+    pub suspect: bool,
 }
 
 impl Tr {
@@ -36,7 +39,7 @@ impl Tr {
             paths.push(p);
         }
         let n = w.len();
-        Tr { w, sz: vec![0; n], cur: 0, events: 0, cases: 0, paths, only: None, muted: false, redundant: false, dir: dir.to_string(), held: None, bulk_run: 0, bulk_kept: 0 }
+        Tr { w, sz: vec![0; n], cur: 0, events: 0, cases: 0, paths, only: None, muted: false, redundant: false, dir: dir.to_string(), held: None, bulk_run: 0, bulk_kept: 0, suspect: false }
     }
     pub fn ev(&mut self, v: Value) {
         HEARTBEAT.fetch_add(1, Ordering::Relaxed);
@@ -89,11 +92,14 @@ impl Tr {
     }
     /// Hold back the events of the next case(s) until `release`.
     pub fn hold(&mut self) {
+        self.suspect = false;
         self.held = Some(Vec::new());
     }
     /// Write the held events (keep = true) or drop them. Cheap exploration runs many cases and
     /// keeps only a sample plus every case the harness finds suspicious; TLC judges what is kept.
     pub fn release(&mut self, keep: bool) {
+        let keep = keep || self.suspect;
+        self.suspect = false;
         self.bulk_run += 1;
         if let Some(h) = self.held.take() {
             if keep && !self.muted && self.bulk_kept < 24 {
